@@ -28,6 +28,12 @@ pub enum COp {
     F2,
     /// getattr on the inode number this thread holds a reference to
     G,
+    /// batch_forget with one entry (inode, 1)
+    Bf1,
+    /// batch_forget with two entries (inode, 1), (inode, 1)
+    Bf2,
+    /// CREATE without O_EXCL on the existing name `a`: an entry (one reference) and a handle, released at once
+    Cr,
 }
 
 #[derive(Clone, Debug)]
@@ -43,14 +49,14 @@ fn valid(prog: &[COp], grant: u64) -> bool {
     let mut owned = grant;
     for op in prog {
         match op {
-            COp::La | COp::Lh | COp::Lx | COp::Rp => owned += 1,
-            COp::F => {
+            COp::La | COp::Lh | COp::Lx | COp::Rp | COp::Cr => owned += 1,
+            COp::F | COp::Bf1 => {
                 if owned < 1 {
                     return false;
                 }
                 owned -= 1;
             }
-            COp::F2 => {
+            COp::F2 | COp::Bf2 => {
                 if owned < 2 {
                     return false;
                 }
@@ -70,9 +76,9 @@ fn owned_after(prog: &[COp], grant: u64) -> u64 {
     let mut owned = grant;
     for op in prog {
         match op {
-            COp::La | COp::Lh | COp::Lx | COp::Rp => owned += 1,
-            COp::F => owned -= 1,
-            COp::F2 => owned -= 2,
+            COp::La | COp::Lh | COp::Lx | COp::Rp | COp::Cr => owned += 1,
+            COp::F | COp::Bf1 => owned -= 1,
+            COp::F2 | COp::Bf2 => owned -= 2,
             COp::G => {}
         }
     }
@@ -201,6 +207,26 @@ fn do_op(fs: &PassthroughFs<()>, rd: u64, op: COp, my_ino: &mut Option<u64>, log
                 log.lock().unwrap().errors.push("forget without a known inode (an earlier lookup failed)".into());
             }
         }
+        COp::Bf1 | COp::Bf2 => {
+            if let Some(i) = *my_ino {
+                fs.batch_forget(&ctx, if op == COp::Bf1 { vec![(i, 1)] } else { vec![(i, 1), (i, 1)] });
+            } else {
+                log.lock().unwrap().errors.push("forget without a known inode (an earlier lookup failed)".into());
+            }
+        }
+        COp::Cr => {
+            let args = fuse_backend_rs::abi::fuse_abi::CreateIn { flags: libc::O_RDWR as u32, mode: 0o644, umask: 0, fuse_flags: 0 };
+            match fs.create(&ctx, 1, &cs("a"), args) {
+                Ok((e, h, _, _)) => {
+                    log.lock().unwrap().inodes.push(e.inode);
+                    *my_ino = Some(e.inode);
+                    if let Some(h) = h {
+                        let _ = fs.release(&ctx, e.inode, libc::O_RDWR as u32, h, false, false, None);
+                    }
+                }
+                Err(e) => log.lock().unwrap().errors.push(format!("lookup(create a) failed: {}", e)),
+            }
+        }
         COp::G => match *my_ino {
             Some(i) => {
                 if let Err(e) = fs.getattr(&ctx, i, None) {
@@ -314,6 +340,26 @@ pub fn scenarios(thorough: bool) -> Vec<Scenario> {
                             continue;
                         }
                         // some thread must forget or two threads must look up: otherwise nothing races
+                        out.push(Scenario { cfg, grants: vec![g0, g1], progs: vec![a.clone(), b.clone()] });
+                    }
+                }
+            }
+        }
+        // two threads, second alphabet: references dropped through batch_forget, taken through CREATE on the existing name
+        let alpha_b: Vec<COp> = vec![COp::La, COp::Cr, COp::Bf1, COp::Bf2, COp::G];
+        for g0 in 0..=2u64 {
+            for g1 in 0..=g0.min(1) {
+                let p0 = programs(2, g0, &alpha_b);
+                let p1 = programs(2, g1, &alpha_b);
+                for a in &p0 {
+                    for b in &p1 {
+                        if g0 == g1 && format!("{:?}", a) > format!("{:?}", b) {
+                            continue;
+                        }
+                        // scenarios made of La / G only are part of the first family
+                        if !a.iter().chain(b.iter()).any(|o| matches!(o, COp::Cr | COp::Bf1 | COp::Bf2)) {
+                            continue;
+                        }
                         out.push(Scenario { cfg, grants: vec![g0, g1], progs: vec![a.clone(), b.clone()] });
                     }
                 }
